@@ -63,11 +63,36 @@ def build_value(spec, names):
     return spec
 
 
+BASE_EXCS = ['SystemExit', 'KeyboardInterrupt', 'GeneratorExit', 'CancelledError']
+
+
+def _raise_base(name):
+    """what unpickling an `evil` entry calls"""
+    import asyncio
+    raise {'SystemExit': SystemExit(1), 'KeyboardInterrupt': KeyboardInterrupt(), 'GeneratorExit': GeneratorExit(),
+           'CancelledError': asyncio.CancelledError()}[name]
+
+
+class _Evil:
+    def __init__(self, name):
+        self.name = name
+
+    def __reduce__(self):
+        return (_raise_base, (self.name,))
+
+
 def build_raw(g, names):
     """garbage entry -> what is put into the channel"""
     t = g['t']
     if t == 'bytes':
         return bytes.fromhex(g['hex'])
+    if t == 'evil':
+        if g['exc'] == 'sys.exit':
+            class _Exit:
+                def __reduce__(self):
+                    return (sys.exit, (1,))
+            return pickle.dumps(_Exit())
+        return pickle.dumps(_Evil(g['exc']))
     v = build_value(g['v'], names)
     if t == 'pickle':
         return pickle.dumps(v)
@@ -240,7 +265,7 @@ def classify_raw(raw, names):
     if isinstance(raw, bytes):
         try:
             p = pickle.loads(raw)
-        except Exception:   # noqa
+        except BaseException:   # noqa  (the bare `except:` of the decode step: SystemExit & co. included)
             p = _FAILED
         try:
             j = json.loads(raw)
@@ -288,9 +313,12 @@ REQUIRED = {'emit': ['event', 'data', 'namespace'], 'callback': ['sid', 'id', 'a
 def gen_garbage(rng, ctx):
     """-> (entry, inert?)  inert = by the statement of C15 this entry must leave no trace"""
     x = rng.random()
-    if x < 0.10:
+    if x < 0.07:
         n = rng.randint(1, 12)
         return {'t': 'bytes', 'hex': bytes(rng.randrange(128, 256) for _ in range(n)).hex()}, True
+    if x < 0.10:
+        # bytes whose unpickling raises a BaseException that is not an Exception
+        return {'t': 'evil', 'exc': rng.choice(BASE_EXCS + ['sys.exit'])}, True
     if x < 0.22:
         v = rng.choice([42, 0, 3.5, True, None, 'method', 'xmethody', 'plain', ['method', 1], [1, 2], [],
                         {'$tuple': ['method']}, {'$tuple': [1]}, {}, {'a': 1}])
@@ -318,9 +346,13 @@ def gen_garbage(rng, ctx):
         w = rng.choice(WRONG)
         d[f] = w
         inert = None        # decided by the model-free rule below
-    elif y < 0.60:
+    elif y < 0.57:
         d['method'] = rng.choice(['nope', 'EMIT', '', 7, None, ['emit']])
         inert = True
+    elif y < 0.64:
+        # an external producer that does not say who it is: no `host_id` at all
+        d.pop('host_id', None)
+        inert = True if method == 'callback' else None
     elif y < 0.72:
         d['host_id'] = HA      # a forged echo
         inert = method != 'callback'
@@ -444,6 +476,8 @@ def gen_case(rng):
                 faults[str(len(stream) - 1)] = 'app'
             elif y < 0.30:
                 faults[str(len(stream) - 1)] = 'fatal'
+            elif y < 0.45:
+                faults[str(len(stream) - 1)] = 'cancel'      # asyncio: a coroutine callback that is cancelled
     return {'setup': setup, 'stream': stream, 'faults': faults}
 
 
@@ -479,7 +513,15 @@ class RealRun:
                 raise W.HandlerError('callback')
             if f == 'fatal':
                 raise WP.Fatal()
+            if f == 'cancel' and self.family == 'asyncio':
+                return self._cancelled()
         return cb
+
+    async def _cancelled(self):
+        """an application coroutine callback that ends in CancelledError (it awaits a cancelled future)"""
+        fut = self.pw.hosts[0].loop.create_future()
+        fut.cancel()
+        await fut
 
     def do_op(self, op):
         pw, names = self.pw, self.names
@@ -625,6 +667,8 @@ def run_model(drv, case, real):
     built = []
     for i, item in enumerate(case['stream']):
         fault = case['faults'].get(str(i), 'none')
+        if fault == 'cancel':
+            fault = 'none'          # swallowed by `trigger_callback`: the callback ran, nothing is logged
         if item['k'] == 'op':
             r = drv.ask({'op': 'c', 'do': c07.op_to_wire(item['op'])})
             for o in r['out']:
@@ -675,7 +719,7 @@ def inert_by_statement(case, i, item):
     if item['inert'] is not None:
         return item['inert']
     g = item['g']
-    if g['t'] in ('bytes', 'str', 'jsonstr'):
+    if g['t'] in ('bytes', 'str', 'jsonstr', 'evil'):
         return True
     v = g['v']
     if not isinstance(v, dict) or 'method' not in v or '$tuple' in v:
@@ -769,7 +813,7 @@ def expected_callbacks(case):
             key = it['op']['sid']
             for slot in [sl for sl in tab.slots if sl[0] == key]:
                 del tab.slots[slot]
-        elif it['k'] == 'raw' and it['g']['t'] in ('pickle', 'dict', 'json') and isinstance(it['g']['v'], dict):
+        elif it['k'] == 'raw' and it['g']['t'] in ('pickle', 'dict', 'json') and isinstance(it['g'].get('v'), dict):
             v = it['g']['v']
             if v.get('method') == 'callback' and v.get('host_id') == HA and isinstance(v.get('sid'), dict) \
                     and '$sid' in v['sid'] and isinstance(v.get('id'), int) and not isinstance(v.get('id'), bool) \
@@ -801,10 +845,41 @@ def compare_runs(with_g, without_g):
     return bad
 
 
+LAST_OBS = {}
+PARITY_KEYS = ('frames', 'app', 'built_app', 'log', 'rooms', 'cbs', 'pub', 'ended', 'consumed')
+
+
+def parity_failures(a, b):
+    """the same case on PubSubManager (a) and AsyncPubSubManager (b)"""
+    return ['%s: PubSubManager %r, AsyncPubSubManager %r' % (k, a[k], b[k]) for k in PARITY_KEYS
+            if jl(a[k]) != jl(b[k])]
+
+
+def parity(ctx, n=None):
+    """C14: the same generated streams (garbage, faults, valid traffic) through the threaded and the
+    asyncio listener; any direct difference is reported as an oracle violation."""
+    rng = ctx.rng
+    n = n or ctx.scale(300, 4000)
+    programs = disagreements = 0
+    for _ in range(n):
+        case = gen_case(rng)
+        a = RealRun('threading', case).run()
+        b = RealRun('asyncio', case).run()
+        programs += 1
+        bad = parity_failures(a, b)
+        if bad:
+            disagreements += 1
+            if disagreements <= 3:
+                ctx.violation('oracle', 'pub/sub listener, threaded vs asyncio: %s' % bad[0],
+                              dict(case, failures=bad[:6], threading=jl(a), asyncio=jl(b)))
+    return {'programs': programs, 'disagreements': disagreements}
+
+
 def judge(ctx, drv, family, case):
     """-> (ok, stats)"""
     real = RealRun(family, case)
     obs = real.run()
+    LAST_OBS[family] = obs
     stats = collections.Counter()
     bad_oracle = []
     # 1. survival: without BaseException faults the listener consumes everything and returns normally
@@ -1151,6 +1226,7 @@ def run(ctx):
             for f in case['faults'].values():
                 ctx.count('fault.' + f)
             good = True
+            LAST_OBS.clear()
             for family in ('threading', 'asyncio'):
                 ok, stats = judge(ctx, drv, family, case)
                 validated += 1
@@ -1158,6 +1234,13 @@ def run(ctx):
                 if family == 'threading':
                     for k, v in stats.items():
                         ctx.count(k, v)
+            if 'threading' in LAST_OBS and 'asyncio' in LAST_OBS:
+                pbad = parity_failures(LAST_OBS['threading'], LAST_OBS['asyncio'])
+                if pbad:
+                    good = False
+                    ctx.violation('oracle', 'threaded vs asyncio listener: %s' % pbad[0],
+                                  dict(case, failures=pbad[:6], threading=jl(LAST_OBS['threading']),
+                                       asyncio=jl(LAST_OBS['asyncio'])))
             if not good:
                 failures += 1
             n_g = sum(1 for it in case['stream'] if it['k'] != 'op')
@@ -1187,7 +1270,13 @@ def run(ctx):
         'garbage is drawn from the classes the model distinguishes (DMsg field classes); values outside them '
         '(falsy containers as namespaces, tuples as room names for room operations, unhashable ack ids, objects '
         'whose unpickling runs code) are not generated',
-        'BaseException raised by application code ends the listener by design (asyncio: cancellation)',
+        'BaseExceptions that are not Exceptions, by containment level: (decode step) SystemExit via '
+        '`__reduce__ -> sys.exit`, SystemExit, KeyboardInterrupt, GeneratorExit, asyncio.CancelledError raised by '
+        'unpickling: caught by the bare `except:` -> the entry is undecodable -> skipped, the listener goes on '
+        '(exercised for both managers); (application callback, asyncio) a coroutine callback ending in '
+        'CancelledError: swallowed by AsyncManager.trigger_callback, the listener goes on; (handler level) a '
+        'BaseException raised by an application callback (`Fatal`) is by design the exit: `_thread` ends, later '
+        'entries stay unconsumed (compared with the model, `alive = false`)',
         'the Redis retry loops run against a fake `redis` package (the real one is not installed); more plans '
         'in the thorough tier',
     ]
